@@ -519,6 +519,22 @@ func evalC16(h *History) *Outcome {
 	if limit == len(hc.Ops) {
 		c.probe("twin_full_history")
 	}
+	// An Invoke that fails while resolving may have several causes at once (a
+	// missing dependency behind one parameter, a cycle behind another); which
+	// one is met first depends on the unspecified resolution order, hence on
+	// the registration order. For such an Invoke only "fails in both orders" is
+	// claimed, not the class of the failure.
+	coarse := func(a, b []OpObs, mapOp func(int) int) {
+		for i := range a {
+			j := mapOp(i)
+			if j < 0 || j >= len(b) || hc.Ops[i].Kind != OpInvoke || c.HarmlessFail[i] {
+				continue
+			}
+			if a[i].Verdict != VOK && b[j].Verdict != VOK {
+				b[j].Verdict = a[i].Verdict
+			}
+		}
+	}
 	// tau1: second linearisation
 	th, perm, moved := permuteBlocks(hc, c.R.Res, r)
 	if th != nil && moved {
@@ -531,6 +547,7 @@ func evalC16(h *History) *Outcome {
 		}
 		// the permutation keeps Invokes in place, so the prefix is the same in both runs
 		primP, wiringOK := prim[:limit], limit == len(hc.Ops)
+		coarse(primP, tobs, func(i int) int { return inv[i] })
 		if d := compareObs(primP, tobs, func(i int) int { return inv[i] }, "wiring-on-success"); d != nil {
 			o.Viol = append(o.Viol, Violation{Props: []string{"C16"}, Class: "order-dependent-outcome", Op: d.Op,
 				Detail: fmt.Sprintf("a second order of the accepted registrations changes op %d (%s): %s; twin order %v", d.Op, hc.Ops[d.Op].Kind, d.Detail, perm)})
@@ -555,12 +572,15 @@ func evalC16(h *History) *Outcome {
 			inv[i] = j
 		}
 		// a scope creation is always accepted; everything else is compared
-		if d := compareObs(prim[:limit], Observe(tr), func(i int) int {
+		mapOp := func(i int) int {
 			if hc.Ops[i].Kind == OpScope {
 				return -1
 			}
 			return inv[i]
-		}, "wiring-on-success"); d != nil {
+		}
+		tobs := Observe(tr)
+		coarse(prim[:limit], tobs, mapOp)
+		if d := compareObs(prim[:limit], tobs, mapOp, "wiring-on-success"); d != nil {
 			o.Viol = append(o.Viol, Violation{Props: []string{"C16", "C08"}, Class: "scope-creation-time-matters", Op: d.Op,
 				Detail: fmt.Sprintf("creating the scopes %s changes op %d (%s): %s", map[bool]string{true: "before everything else", false: "as late as possible"}[early], d.Op, hc.Ops[d.Op].Kind, d.Detail)})
 		} else if w := compareWiring(c.R, tr); w != "" && limit == len(hc.Ops) {
